@@ -7,6 +7,7 @@ import QtyModel.Spec.SI
 import QtyModel.UnitSpec
 import QtyModel.Rate
 import QtyModel.Fmt
+import QtyModel.Serde
 import QtyModel.Spec.Temperature
 import QtyModel.Generated.TempTable
 /-
@@ -166,12 +167,16 @@ def parseSpec (flags w p : String) : Option Fmt.Spec :=
     | _, _ => none
   | _ => none
 
+structure AmtSer (A : Type) where
+  /-- JSON of the amount where the model can compute it (decimal: string of the Display text) -/
+  ser : Option (A → Serde.JL)
+
 structure AmtText (A : Type) where
   /-- text of `|a|` under an optional precision, where the model can compute it (decimal) -/
   absText : Option (Option Nat → A → Text)
 
 section run
-variable {A : Type} (R : Arith A) (C : Codec A) (M : ErrModel) (W : World A) (AT : AmtText A)
+variable {A : Type} (R : Arith A) (C : Codec A) (M : ErrModel) (W : World A) (AT : AmtText A) (AS : AmtSer A)
 
 def qStr (q : Q A Nat) : String := s!"{q.unit} {C.render q.amount}"
 
@@ -597,6 +602,43 @@ def step (line impl : String) : String × Verdict :=
         (impl, (vAmt.and vUnit).and vShape)
       | _ => (impl, .skip "unparsed impl output")
     | _, _, _ => bad
+  | ["ser", t, i, a] =>
+    match W.find t, i.toNat?, C.parse a with
+    | some T, some i, some a =>
+      match T.units[i]? with
+      | none => bad
+      | some u =>
+        match impl.splitOn " " with
+        | [qj, aj, uj, tree, back, backTree, uback, aparsed] =>
+          match textOfHex qj, textOfHex aj, textOfHex uj with
+          | some qjT, some ajT, some ujT =>
+            let amtJ : Serde.JL := match AS.ser with
+              | some f => f a
+              | none => .num ajT
+            let expQ := Serde.render (Serde.serQty T.kind amtJ u)
+            let expU := Serde.renderLeaf (Serde.serUnit u)
+            let want := s!"{i},{C.render a}"
+            let fin := (R.val a).isSome
+            let v :=
+              (check (ujT == expU) "a unit does not serialise as its variant name").and <|
+              (check (qjT == expQ) "a value does not serialise as {amount, unit}").and <|
+              (check (Serde.renderLeaf amtJ == ajT) "amount serialisation differs from the amount type's own").and <|
+              -- binary back-end: serde_json's own text parser is not exactly rounding (it may be one ulp off
+              -- without its `float_roundtrip` feature), so for JSON TEXT the property asks for an exactly rounding
+              -- parser (`aparsed` below); the value tree must round-trip exactly in both back-ends
+              (if AS.ser.isSome then check (tree == "tree=text") "value tree and JSON text differ" else .ok).and <|
+              (if fin then
+                (check (backTree == want && (AS.ser.isNone || back == want)) "deserialising the serialised value does not give back the identical unit and amount").and <|
+                (check ((back.splitOn ",").head? == some (toString i)) "deserialising the JSON text does not give back the unit").and <|
+                (check (aparsed == C.render a) "the serialised amount read back with an exactly rounding parser differs from the stored amount")
+               else .skip "non-finite amount").and <|
+              check (uback == toString i) "deserialising the serialised unit does not give back the unit"
+            ("h" ++ hexOfText expQ ++ " h" ++ hexOfText (Serde.renderLeaf amtJ) ++ " h" ++ hexOfText expU
+              ++ (if AS.ser.isSome then s!" tree=text {want} {want} {i} {C.render a}"
+                  else s!" {tree} {back} {want} {i} {C.render a}"), v)
+          | _, _, _ => (impl, .skip "unparsed impl output")
+        | _ => (impl, if impl.startsWith "panic:" then .skip "panic" else .skip "unparsed impl output")
+    | _, _, _ => bad
   | ["si", "iter"] =>
     let row (i : Text) : String :=
       s!"{Text.toString i}:h{hexOfText ((SIPrefix.name i).getD [])}:h{hexOfText ((SIPrefix.abbr i).getD [])}:{(SIPrefix.exp i).getD 999}"
@@ -800,7 +842,7 @@ def step (line impl : String) : String × Verdict :=
 
 end run
 
-def runWith {A} (R : Arith A) (C : Codec A) (M : ErrModel) (AT : AmtText A) (isF64 : Bool) (args : List String) : IO UInt32 := do
+def runWith {A} (R : Arith A) (C : Codec A) (M : ErrModel) (AT : AmtText A) (AS : AmtSer A) (isF64 : Bool) (args : List String) : IO UInt32 := do
   let W := buildWorld R isF64
   match args with
   | ["dump"] =>
@@ -819,7 +861,7 @@ def runWith {A} (R : Arith A) (C : Codec A) (M : ErrModel) (AT : AmtText A) (isF
     let mut i := 0
     for l in ls do
       let io := im.getD i "-"
-      let (m, v) := step R C M W AT l io
+      let (m, v) := step R C M W AT AS l io
       out.putStrLn (m ++ "\t" ++ v.toString)
       i := i + 1
     return 0
@@ -829,8 +871,8 @@ def runWith {A} (R : Arith A) (C : Codec A) (M : ErrModel) (AT : AmtText A) (isF
 
 def main (args : List String) : IO UInt32 :=
   match args with
-  | "f64" :: rest => runWith F64.arith f64Codec ErrModel.f64 ⟨none⟩ true rest
-  | "dec" :: rest => runWith Dec.arith decCodec ErrModel.dec ⟨some Fmt.decAbsText⟩ false rest
+  | "f64" :: rest => runWith F64.arith f64Codec ErrModel.f64 ⟨none⟩ ⟨none⟩ true rest
+  | "dec" :: rest => runWith Dec.arith decCodec ErrModel.dec ⟨some Fmt.decAbsText⟩ ⟨some (fun d => .str (Serde.decText d))⟩ false rest
   | _ => do
     IO.eprintln "usage: driver <f64|dec> ..."
     return 2
